@@ -684,6 +684,9 @@ primaryexpr(struct scope *s)
 		hexoct = false;
 		src += decodechar(src, &chr, &hexoct, "character constant", &tok.loc);
 		e = mkconstexpr(t, chr);
+		/* wchar_t may be a signed type */
+		if (t->u.basic.issigned && t->size == 4)
+			e->u.constant.u = (chr ^ 0x80000000ull) - 0x80000000ull;
 		/* an unprefixed constant has the value of a char converted to int (C11 6.4.4.4p10) */
 		if (tok.lit[0] == '\'' && hexoct && typechar.u.basic.issigned && chr - 0x80 < 0x80)
 			e->u.constant.u = chr - 0x100ull;
